@@ -194,7 +194,7 @@ spec fn can_output(a: KanataAction, slot: OsCode, k: OsCode) -> bool
         forall|s: OsCode| s != osc_slot ==> final(outs).lst(s) == old(outs).lst(s),
         grows(*old(outs), *final(outs)),
 //@@ resub R37 1 /match outs\.entry\(osc_slot\) \{\s*Entry::Occupied\(o\) => o\.into_mut\(\),\s*Entry::Vacant\(v\) => v\.insert\(vec!\[\]\),\s*\}/ => `verif_entry_or_empty(outs, osc_slot)`
-//@@ resub R17 1 /for ov_osc in overrides\s*\.output_non_mods_for_input_non_mod\(osc\)\s*\.iter\(\)\s*\.copied\(\)/ => `for ov_osc in it: overrides.output_non_mods_for_input_non_mod(osc)`
+//@@ resub R17 1 /for ov_osc in overrides\s*\.output_non_mods_for_input_non_mod\((\w+)\)\s*\.iter\(\)\s*\.copied\(\)/ => `for ov_osc in it: overrides.output_non_mods_for_input_non_mod(\1)`
 //@@ after-re 1 /let outputs = verif_entry_or_empty\(outs, osc_slot\);/
     let ghost l0 = outputs@;
     let ghost xs = overrides.outs_for(osc);
@@ -206,7 +206,7 @@ spec fn can_output(a: KanataAction, slot: OsCode, k: OsCode) -> bool
             outputs@.contains(osc),
             forall|i: int| 0 <= i < it.index@ ==> outputs@.contains(#[trigger] xs[i]),
             forall|o: OsCode| #[trigger] outputs@.contains(o) ==> l0.contains(o) || o == osc || xs.contains(o),
-//@@ after-re 1 /for ov_osc in it: overrides\.output_non_mods_for_input_non_mod\(osc\)\s*\{/
+//@@ after-re 1 /for ov_osc in it: overrides\.output_non_mods_for_input_non_mod\(\w+\)\s*\{/
         proof { assert(ov_osc == xs[it.index@ as int]); assert(xs.contains(ov_osc)); }
 //@ item parser/src/cfg/key_outputs.rs fn add_key_output_from_action_to_key_pos
 //@@ spec
